@@ -65,9 +65,11 @@ class GroupAddressDPT:
             return
         if not isinstance(telegram.payload, GroupValueWrite | GroupValueResponse):
             return
-        assert isinstance(  # GroupValueWrite and GroupValueResponse can not have IndividualAddress
+        if not isinstance(
             telegram.destination_address, GroupAddress | InternalGroupAddress
-        )
+        ):
+            # a group value service sent to an individual address has no datapoint type
+            return
         if (transcoder := self.get(telegram.destination_address)) is None:
             return
         try:
